@@ -6,6 +6,8 @@ import (
 	"math/rand/v2"
 	"path/filepath"
 	"sort"
+	"sync"
+	"sync/atomic"
 	"time"
 
 	"github.com/google/uuid"
@@ -296,6 +298,42 @@ func c15Live(res *fw.CaseResult, rng *rand.Rand, c fw.Case, env *fw.Env) {
 			if err := node.CreateCollection(mkCol(id)); !errors.Is(err, cluster.ErrExists) {
 				res.Violate("quota", "C15:duplicate-create", fmt.Sprintf("creating %s twice returned %v", id, err), nil)
 			}
+		}
+	}
+	// ---- the same boundary approached by concurrent requests of one user: the quota decision and
+	// the write of the record are one step, so of 6 x 3 simultaneous creations exactly `quota` succeed
+	{
+		user2 := "carol"
+		var wg sync.WaitGroup
+		var okN, refusedN, otherN atomic.Int64
+		var firstOther atomic.Value
+		for gi := 0; gi < 6; gi++ {
+			wg.Add(1)
+			go func(gi int) {
+				defer wg.Done()
+				for k := 0; k < 3; k++ {
+					col := mkCol(fmt.Sprintf("c%dx%d", gi, k))
+					col.UserId = user2
+					switch err := node.CreateCollection(col); {
+					case err == nil:
+						okN.Add(1)
+					case errors.Is(err, cluster.ErrQuotaReached):
+						refusedN.Add(1)
+					default:
+						otherN.Add(1)
+						firstOther.CompareAndSwap(nil, err.Error())
+					}
+				}
+			}(gi)
+		}
+		wg.Wait()
+		list, lerr := node.ListCollections(user2)
+		res.Eval(true, "concurrent-create", quotaCols)
+		res.Stat("concurrent_create_requests", 18)
+		if lerr != nil || otherN.Load() > 0 {
+			res.Violate("live-error", "C15:concurrent-create-error", fmt.Sprintf("concurrent creations: list error %v, %d unexpected errors (first: %v)", lerr, otherN.Load(), firstOther.Load()), nil)
+		} else if int(okN.Load()) != quotaCols || len(list) != quotaCols {
+			res.Violate("quota", "C15:concurrent-create-quota", fmt.Sprintf("18 concurrent creations under a quota of %d collections: %d reported success, %d were refused, the user now lists %d collections", quotaCols, okN.Load(), refusedN.Load(), len(list)), nil)
 		}
 	}
 	if len(created) == 0 {
